@@ -15,10 +15,12 @@
      (e) "a file minified onto itself ends up with the new content and no leftover backup"
    Directories are not files: they are ignored on both sides.                                          *)
 EXTENDS CliPlan, TraceIO
-VARIABLE l
-Init == l = 1
-Next == l <= N /\ l' = l + 1
-Spec == Init /\ [][Next]_l
+VARIABLES l, P            \* P = Plan(scenario of line l), computed once per line
+vars == <<l, P>>
+PlanOf(i) == IF i > N THEN <<>> ELSE Plan(Trace[i].sc)
+Init == l = 1 /\ P = PlanOf(1)
+Next == l <= N /\ l' = l + 1 /\ P' = PlanOf(l + 1)
+Spec == Init /\ [][Next]_vars
 
 NonDir(T) == {T[i] : i \in {j \in DOMAIN T : T[j].k # "d"}}
 
@@ -27,7 +29,6 @@ LineOK(rec) ==
       obs == rec.obs
       T == sc.tree
       F == obs.final
-      P == Plan(sc)
       tasks == P.tasks
       \* content of a source as the command finds it (links followed); <<>> names standard input
       SrcBytes(p) == IF p = <<>> THEN sc.stdin ELSE Stat(T, Comps(p), TRUE).c
